@@ -49,11 +49,52 @@ fn seq_str(seq: &[u8]) -> String {
     seq.iter().map(|&e| match e { 0 => 'a', 1 => 'i', _ => 'd' }).collect()
 }
 
-pub fn run(rec: &mut Recorder, w: &mut crate::interp::World, tier: &str, _seed: u64) {
+fn check_seq(rec: &mut Recorder, w: &mut crate::interp::World, xi: usize, seq: &[u8], sample: bool) {
+    let n = seq.len();
+    rec.begin();
+    let op = format!("eff.run\t{}\t{}\t{}", xi, n, seq_str(seq));
+    let out = rec.exec(w, &op);
+    rec.count(&format!("expr{}", xi));
+    // --- the property evaluated directly on the implementation ---
+    if out == "panic" {
+        rec.fail("panic", format!("stream panicked on expr {} seq {}", xi, seq_str(seq)));
+        return;
+    }
+    let b = out.as_bytes();
+    let want = declarative(xi, seq);
+    // (1) complete after the announced number of effects, with the declarative verdict
+    let last_flag = b[2 * (n - 1)];
+    let last_next = b[2 * (n - 1) + 1];
+    if last_flag != b'1' {
+        rec.fail("not-done-at-cap", format!("expr {} seq {}: not complete after cap pushes", xi, seq_str(seq)));
+    } else if (last_next == b't') != want {
+        rec.fail("wrong-verdict", format!("expr {} seq {}: got {} want {}", xi, seq_str(seq), last_next as char, want));
+    }
+    // (2) whenever completion is signalled at i < n-1, every continuation has that verdict:
+    //     the verdict at the first signal must equal the declarative result of THIS full sequence
+    //     (in the exhaustive part all continuations are enumerated).
+    let mut early = false;
+    for i in 0..n {
+        if b[2 * i] == b'1' {
+            if i + 1 < n { early = true; }
+            if (b[2 * i + 1] == b't') != want {
+                rec.fail("early-signal-unstable", format!("expr {} seq {}: signalled at {} with {} but declarative result is {}", xi, seq_str(seq), i, b[2*i+1] as char, want));
+            }
+            break;
+        } else if b[2 * i + 1] != b'-' {
+            rec.fail("next-before-done", format!("expr {} seq {}: next() readable at {} while not complete", xi, seq_str(seq), i));
+        }
+    }
+    if early { rec.count("early_completion"); } else { rec.count("completed_at_cap"); }
+    if seq.iter().any(|&e| e != 1) { rec.nontrivial_case(&op); }
+    if sample { rec.sample(format!("{} -> {}", op.replace('\t', " "), out)); }
+}
+
+pub fn run(rec: &mut Recorder, w: &mut crate::interp::World, tier: &str, seed: u64) {
     let maxn = if tier == "thorough" { 12 } else { 8 };
     rec.exhaustive = true;
     rec.notes.insert("max_len".into(), maxn.into());
-    for (xi, expr) in EXPRS.iter().enumerate() {
+    for (xi, _expr) in EXPRS.iter().enumerate() {
         for n in 1..=maxn {
             let total = 3usize.pow(n as u32);
             let mut seq = vec![0u8; n];
@@ -63,45 +104,21 @@ pub fn run(rec: &mut Recorder, w: &mut crate::interp::World, tier: &str, _seed: 
                     seq[i] = (c % 3) as u8;
                     c /= 3;
                 }
-                rec.begin();
-                let _ = expr;
-                let op = format!("eff.run\t{}\t{}\t{}", xi, n, seq_str(&seq));
-                let out = rec.exec(w, &op);
-                rec.count(&format!("expr{}", xi));
-                // --- the property evaluated directly on the implementation ---
-                if out == "panic" {
-                    rec.fail("panic", format!("stream panicked on expr {} seq {}", xi, seq_str(&seq)));
-                    continue;
-                }
-                let b = out.as_bytes();
-                let want = declarative(xi, &seq);
-                // (1) complete after the announced number of effects, with the declarative verdict
-                let last_flag = b[2 * (n - 1)];
-                let last_next = b[2 * (n - 1) + 1];
-                if last_flag != b'1' {
-                    rec.fail("not-done-at-cap", format!("expr {} seq {}: not complete after cap pushes", xi, seq_str(&seq)));
-                } else if (last_next == b't') != want {
-                    rec.fail("wrong-verdict", format!("expr {} seq {}: got {} want {}", xi, seq_str(&seq), last_next as char, want));
-                }
-                // (2) whenever completion is signalled at i < n-1, every continuation has that verdict:
-                //     checked through the enumeration itself — the verdict at the first signal must equal
-                //     the declarative result of THIS full sequence (all continuations are enumerated).
-                let mut early = false;
-                for i in 0..n {
-                    if b[2 * i] == b'1' {
-                        if i + 1 < n { early = true; }
-                        if (b[2 * i + 1] == b't') != want {
-                            rec.fail("early-signal-unstable", format!("expr {} seq {}: signalled at {} with {} but declarative result is {}", xi, seq_str(&seq), i, b[2*i+1] as char, want));
-                        }
-                        break;
-                    } else if b[2 * i + 1] != b'-' {
-                        rec.fail("next-before-done", format!("expr {} seq {}: next() readable at {} while not complete", xi, seq_str(&seq), i));
-                    }
-                }
-                if early { rec.count("early_completion"); } else { rec.count("completed_at_cap"); }
-                if seq.iter().any(|&e| e != 1) { rec.nontrivial_case(&op); }
-                if code % 7 == 3 && n >= 3 && n <= 5 && code < 60 { rec.sample(format!("{} -> {}", op.replace('\t', " "), out)); }
+                check_seq(rec, w, xi, &seq, code % 7 == 3 && n >= 3 && n <= 5 && code < 60);
             }
+        }
+    }
+    // beyond the exhaustive bound: seeded-random streams of up to 48 effects, mostly indeterminate with the
+    // decisive effect late (capacities far above the enumerated ones)
+    let mut rng = Rng::new(seed);
+    let n_rand = (if tier == "thorough" { 20000 } else { 2500 }) * rec.budget as usize;
+    for (xi, _expr) in EXPRS.iter().enumerate() {
+        for _ in 0..n_rand {
+            let n = maxn + 1 + rng.below(48 - maxn);
+            let p_ind = 60 + rng.below(40);
+            let seq: Vec<u8> = (0..n).map(|_| if rng.below(100) < p_ind { 1 } else if rng.chance(1, 2) { 0 } else { 2 }).collect();
+            check_seq(rec, w, xi, &seq, false);
+            rec.count("random-long-stream");
         }
     }
     // malformed stream: unsupported expressions and cap = 0 must panic on both sides
